@@ -187,10 +187,15 @@ class Inotify:
         self._event_mask = event_mask
         self._follow_symlink = follow_symlink
         self._is_recursive = recursive
-        if os.path.isdir(path):
-            self._add_dir_watch(path, event_mask, recursive=recursive)
-        else:
-            self._add_watch(path, event_mask)
+        try:
+            if os.path.isdir(path):
+                self._add_dir_watch(path, event_mask, recursive=recursive)
+            else:
+                self._add_watch(path, event_mask)
+        except OSError:
+            # The instance is never handed out: release what was opened above.
+            self._close_resources()
+            raise
         self._moved_from_events: dict[int, InotifyEvent] = {}
 
     @property
